@@ -448,3 +448,139 @@ Proof.
   destruct (nothing_omitted_roundtrip _ _ _ Hs Hg Ho H) as [_ Hr]. specialize (Hr c Hc).
   unfold generate_merkle_root. rewrite Hr. reflexivity.
 Qed.
+
+(* ------------------------------------------------------------------ the known classes *)
+
+(* the in-memory lite block: a sibling pair omitted as a whole (the loop merges it, and the merged
+   placeholder is later expanded into two identical leaves), or an omitted transaction that itself
+   counts for more than one leaf *)
+Definition Known_C18_mem (b : block) (ks : list N) : Prop :=
+  aligned_omitted ks (b_txs b) = true \/ omitted_multi ks (b_txs b) = true.
+(* the lite block as received: anything omitted at all *)
+Definition Known_C18_wire (b : block) (ks : list N) : Prop := some_omitted ks (b_txs b) = true.
+(* the full block's own merkle_root field is stale (accepted by the pinned tree: DESIGN 9 row 5) *)
+Definition Known_C18_stale (b : block) : Prop := stale_root b = true.
+
+Lemma not_stale_consistent : forall b, ~ Known_C18_stale b -> root_consistent b.
+Proof.
+  intros b H. unfold Known_C18_stale, stale_root, root_consistent in *.
+  destruct (generate_merkle_root b true true) as [h| |s]; cbn [res_eqb negb] in H.
+  - destruct (hv_eqb h (h_merkle_root (b_hdr b))) eqn:E.
+    + apply hv_eqb_eq in E. subst. reflexivity.
+    + exfalso. apply H. reflexivity.
+  - exfalso. apply H. reflexivity.
+  - exfalso. apply H. reflexivity.
+Qed.
+
+Lemma Known_C18_mem_dec : forall b ks, {Known_C18_mem b ks} + {~ Known_C18_mem b ks}.
+Proof.
+  intros b ks. unfold Known_C18_mem.
+  destruct (aligned_omitted ks (b_txs b)); [left; left; reflexivity|].
+  destruct (omitted_multi ks (b_txs b)); [left; right; reflexivity|].
+  right. intros [H|H]; discriminate.
+Qed.
+
+Lemma Known_C18_wire_dec : forall b ks, {Known_C18_wire b ks} + {~ Known_C18_wire b ks}.
+Proof. intros b ks. unfold Known_C18_wire. destruct (some_omitted ks (b_txs b)); [left|right]; congruence. Qed.
+
+Lemma Known_C18_stale_dec : forall b, {Known_C18_stale b} + {~ Known_C18_stale b}.
+Proof. intros b. unfold Known_C18_stale. destruct (stale_root b); [left|right]; congruence. Qed.
+
+Lemma root_mem_guarded : forall b ks l, no_spv (b_txs b) -> ~ Known_C18_mem b ks ->
+  lite b ks = Ok l ->
+  generate_merkle_root l false false = generate_merkle_root b false false.
+Proof.
+  intros b ks l Hs Hk H. apply (root_preserved b ks l Hs); [| |exact H].
+  - destruct (aligned_omitted ks (b_txs b)) eqn:E; [|reflexivity]. exfalso. apply Hk. left. exact E.
+  - destruct (omitted_multi ks (b_txs b)) eqn:E; [|reflexivity]. exfalso. apply Hk. right. exact E.
+Qed.
+
+Lemma root_wire_guarded : forall b ks l c, no_spv (b_txs b) -> generated b -> ~ Known_C18_wire b ks ->
+  lite b ks = Ok l -> receive l = Ok c ->
+  generate_merkle_root c false false = generate_merkle_root b false false.
+Proof.
+  intros b ks l c Hs Hg Hk H Hc. apply (root_preserved_wire b ks l c Hs Hg); [|exact H|exact Hc].
+  destruct (some_omitted ks (b_txs b)) eqn:E; [|reflexivity]. exfalso. apply Hk. exact E.
+Qed.
+
+Lemma header_guarded : forall b ks l, ~ Known_C18_stale b -> lite b ks = Ok l ->
+  b_hdr l = b_hdr b /\ b_hash l = b_hash b.
+Proof. intros b ks l Hk. apply header_same. apply not_stale_consistent. exact Hk. Qed.
+
+Lemma wire_hash_guarded : forall b ks l,
+  generated b -> ~ Known_C18_stale b ->
+  (h_merkle_root (b_hdr b) = hzero -> b_txs b = []) ->
+  lite b ks = Ok l ->
+  exists c, receive l = Ok c /\ b_hash c = b_hash b /\ b_hdr c = b_hdr b.
+Proof. intros b ks l Hg Hk. apply wire_hash; [exact Hg|apply not_stale_consistent; exact Hk]. Qed.
+
+(* ------------------------------------------------------------------ witnesses *)
+
+Definition hdr0 (mr : hv) : header :=
+  mkHeader 2 1000 1 2 mr 3 0 0 0 0 0 0 0 0 0 0 0 0 0 0 0 0 0 0 0 0 0 0 0 0 0.
+(* a transfer from key [f] to key [t] with content hash [c] and signature prefix [s] *)
+Definition wtx (c s f t r : N) : tx := mkTx TY_NORMAL r (100 + s) s 1000 [f] [t] (200 + c) c (Some (Leaf c)).
+Definition wblock (mr : hv) (txs : list tx) : block :=
+  mkBlock (hdr0 mr) (block_hash_of (hdr0 mr)) txs.
+
+(* two transfers, the key list touches neither: the pair is merged *)
+Definition w_merge : block := wblock (Node (Leaf 11) (Leaf 12)) [wtx 11 21 31 41 1; wtx 12 22 32 42 1].
+(* one transfer, omitted *)
+Definition w_one : block := wblock (Leaf 11) [wtx 11 21 31 41 1].
+(* two transfers, the second has txs_replacements = 2 and is omitted, the first is kept *)
+Definition w_repl : block :=
+  wblock (Node (Node (Leaf 11) (Leaf 12)) (Leaf 12)) [wtx 11 21 31 41 1; wtx 12 22 32 42 2].
+(* the merkle_root field is the root of the transactions in the other order *)
+Definition w_stale : block := wblock (Node (Leaf 12) (Leaf 11)) [wtx 11 21 31 41 1; wtx 12 22 32 42 1].
+
+Lemma wblock_generated : forall mr txs, Forall tx_generated txs -> generated (wblock mr txs).
+Proof. intros. split; [reflexivity|assumption]. Qed.
+
+Ltac wit_gen := apply wblock_generated; repeat (constructor; try reflexivity).
+Ltac wit_nospv := repeat (constructor; try reflexivity).
+
+Lemma root_mem_refuted_merge :
+  exists b ks l, no_spv (b_txs b) /\ generated b /\ root_consistent b /\ lite b ks = Ok l /\
+    aligned_omitted ks (b_txs b) = true /\
+    generate_merkle_root l false false <> generate_merkle_root b false false.
+Proof.
+  exists w_merge, []. eexists.
+  split; [wit_nospv|]. split; [wit_gen|].
+  split; [vm_compute; reflexivity|]. split; [vm_compute; reflexivity|].
+  split; [vm_compute; reflexivity|]. vm_compute; discriminate.
+Qed.
+
+Lemma root_mem_refuted_repl :
+  exists b ks l, no_spv (b_txs b) /\ generated b /\ root_consistent b /\ lite b ks = Ok l /\
+    aligned_omitted ks (b_txs b) = false /\ omitted_multi ks (b_txs b) = true /\
+    generate_merkle_root l false false <> generate_merkle_root b false false.
+Proof.
+  exists w_repl, [41]. eexists.
+  split; [wit_nospv|]. split; [wit_gen|].
+  split; [vm_compute; reflexivity|]. split; [vm_compute; reflexivity|].
+  split; [vm_compute; reflexivity|]. split; [vm_compute; reflexivity|]. vm_compute; discriminate.
+Qed.
+
+Lemma root_wire_refuted :
+  exists b ks l c, no_spv (b_txs b) /\ generated b /\ root_consistent b /\ lite b ks = Ok l /\
+    receive l = Ok c /\ ~ Known_C18_mem b ks /\
+    generate_merkle_root l false false = generate_merkle_root b false false /\
+    generate_merkle_root c false false <> generate_merkle_root b false false.
+Proof.
+  exists w_one, []. do 2 eexists.
+  split; [wit_nospv|]. split; [wit_gen|].
+  split; [vm_compute; reflexivity|]. split; [vm_compute; reflexivity|].
+  split; [vm_compute; reflexivity|].
+  split; [intros [H|H]; vm_compute in H; discriminate|].
+  split; [vm_compute; reflexivity|]. vm_compute; discriminate.
+Qed.
+
+Lemma header_refuted :
+  exists b ks l c, no_spv (b_txs b) /\ generated b /\ lite b ks = Ok l /\ receive l = Ok c /\
+    b_hdr l <> b_hdr b /\ b_hash l = b_hash b /\ b_hash c <> b_hash b.
+Proof.
+  exists w_stale, [41; 42]. do 2 eexists.
+  split; [wit_nospv|]. split; [wit_gen|].
+  split; [vm_compute; reflexivity|]. split; [vm_compute; reflexivity|].
+  split; [vm_compute; discriminate|]. split; [vm_compute; reflexivity|]. vm_compute; discriminate.
+Qed.
